@@ -546,10 +546,13 @@ def main(chk: Check) -> None:
     law_cfgs = [mc_cfg([1, 2, 3, 4, 5, 7], [1], 2, 1, 1, ['iadd'], True, LAWS, ' MaxList = 3\n')]
     if not quick:   # a second table around libraries, absolute paths and -isystem of default directories
         law_cfgs.append(mc_cfg([3, 4, 5, 6, 9, 10, 11], [1], 2, 1, 1, ['iadd'], True, LAWS, ' MaxList = 3\n'))
-    for n, law_cfg in enumerate(law_cfgs):
-        res = run_tlc(SPECS / 'arglist', 'ArgList_MC', cfg_text=law_cfg, timeout=3000, allow_violation=False)
-        chk.add_tlc(f'ArgList_MC[laws#{n}]', res)
-        dbg(f'laws#{n} {res.distinct} states {res.wall:.1f}s')
+    # all model-checking runs are started now and go on in the background while the exported spaces are driven
+    # through the implementation; their results are collected when needed
+    from concurrent.futures import ThreadPoolExecutor
+    mc_pool = ThreadPoolExecutor(max_workers=3)
+    half = max(2, common.NCPU // 2)
+    law_runs = [mc_pool.submit(run_tlc, SPECS / 'arglist', 'ArgList_MC', cfg_text=law_cfg, timeout=3000, allow_violation=False,
+                               workers=half) for law_cfg in law_cfgs]
 
     # 2. refinement lazy => eager on the spaces that are then replayed on the implementation
     mid = ['iadd', 'xdirect', 'insert', 'read', 'len', 'copy', 'add']
@@ -572,11 +575,15 @@ def main(chk: Check) -> None:
             ('native', [4, 6, 9, 10, 11, 12], [10], 2, 3, 2, 1, nat, True),
             ('native1', [4, 6, 9, 10, 11, 12], [10], 1, 4, 4, 1, nat, True),
         ]
+    refine_runs = {sp[0]: mc_pool.submit(run_tlc, SPECS / 'arglist', 'ArgListLazy_MC',
+                                         cfg_text=mc_cfg(sp[1], sp[2], sp[3], sp[4], sp[6], sp[7], sp[8], REFINE, 'POSTCONDITION EmitSpace\n'),
+                                         collect=['space.json'], timeout=3000, allow_violation=False, workers=half)
+                   for sp in spaces}
+    # the biggest model (wide) was submitted first and is used last
+    spaces = spaces[1:] + spaces[:1]
     with ProcessPoolExecutor(max_workers=common.NCPU) as ex:
         for label, argsel, onesel, mb, mdepth, idepth, mo, kinds, gnu in spaces:
-            cfg = mc_cfg(argsel, onesel, mb, mdepth, mo, kinds, gnu, REFINE, 'POSTCONDITION EmitSpace\n')
-            res = run_tlc(SPECS / 'arglist', 'ArgListLazy_MC', cfg_text=cfg, collect=['space.json'], timeout=3000,
-                          allow_violation=False)
+            res = refine_runs[label].result()
             chk.add_tlc(f'ArgListLazy_MC[{label},depth<={mdepth}]', res)
             dbg(f'refine {label} {res.distinct} states {res.wall:.1f}s')
             space = json.loads(res.collected['space.json'])
@@ -624,6 +631,11 @@ def main(chk: Check) -> None:
         # (D) lists of different classes side by side: ClassificationIsPerClass
         from . import arglist_classes
         arglist_classes.run(chk, ex, _tlc_part, dbg)
+    for n, fut in enumerate(law_runs):
+        res = fut.result()
+        chk.add_tlc(f'ArgList_MC[laws#{n}]', res)
+        dbg(f'laws#{n} {res.distinct} states {res.wall:.1f}s')
+    mc_pool.shutdown(wait=True)
     chk.extra['random_histories'] = n_rand
     chk.extra['concrete_argument_table'] = len(alpha) - 2
     # (C) real command lines
